@@ -1,0 +1,7 @@
+//go:build !verif
+
+package spine
+
+// verifPoint marks a linearization point or race window for the external
+// verification harness. Without the build tag "verif" it is a no-op.
+func verifPoint(string, ...any) {}
